@@ -370,6 +370,7 @@ func genPool(t *rapid.T, n int) []*Op {
 			g := sgen.New(t)
 			g.Probes, g.Loops, g.Slices, g.AddKey, g.Exit = true, true, true, true, true
 			g.Hostile = rapid.SampledFrom([]int{0, 30}).Draw(t, "hostile")
+			g.UniqueOrder = true // two executions are compared verbatim: no loop over a map of several keys
 			g.Calls = []func(*sgen.G, int) *gen.Node{func(g *sgen.G, d int) *gen.Node { return g.BuiltinCall(d) }}
 			prog := g.Program(rapid.IntRange(2, 6).Draw(t, "size"), 2)
 			tags, fields := point()
